@@ -2,6 +2,7 @@ package main
 
 import (
 	"fmt"
+	"math"
 	"sort"
 	"strings"
 	"sync"
@@ -403,6 +404,10 @@ func runVacuum(c *Case, id string) {
 		cutoff, cutKind = vclock+100, "after-everything"
 	default:
 		cutoff, cutKind = 365*24*3600*20, "far-future"
+		if r.Bool() {
+			// the year 2300: later than any time an int64 of nanoseconds since 1970 can hold
+			cutoff, cutKind = 8836128000, "beyond-the-year-2262"
+		}
 	}
 	// a marker whose row was updated (by a writer that had not seen the delete) after it was deleted:
 	// the delete time, not the row's last modification, decides
@@ -421,6 +426,9 @@ func runVacuum(c *Case, id string) {
 	}
 	c.Distinct("cutoff_kinds", cutKind)
 	cutNanos := tnanos(cutoff)
+	if cutKind == "beyond-the-year-2262" {
+		cutNanos = math.MaxInt64
+	}
 	preDump, err := A.conn.Dump(A.table)
 	if err != nil {
 		fail("dump-error", err.Error())
